@@ -110,7 +110,7 @@ def dataflow(lines):
             if ins in ("expr", "parse"): k = "E"
             elif ins == "op1": ops = [int(t[3])]; k = None
             elif ins == "op2": ops = [int(t[4]), int(t[5])]; k = None
-            elif ins == "conv":
+            elif ins in ("conv", "bigconv"):
                 ops = [int(t[3])]; k = t[2]
                 if k == "B" and ops[0] < len(kinds) and kinds[ops[0]] == "T": src.add("conv_B_of_T")
             elif ins in ("restrict", "exists", "forall", "deriv"): ops = [int(t[2])]; k = None
